@@ -114,7 +114,9 @@ structure Steps where
   /-- `manager.step_size()` – the global clock step -/
   global : Rat
   /-- the `step_size` column of the state table (`SimulationClock.simulant_step_sizes` without
-  per-simulant clocks: the global step for everybody) -/
+  per-simulant clocks: the global step for everybody). Total over simulant labels: the code reads it
+  through `subview(["step_size", "tracked"])`, a view that does NOT filter on `tracked`, so untracked
+  simulants in the requested index have their step like everybody else. -/
   sim : Nat → Rat
 
 /-- `manager.simulant_step_sizes(index)`: a Series over the requested index, in request order -/
